@@ -96,27 +96,63 @@ Lemma wattr_eq n v rest :
   wattr (n, v) ++ rest = SP :: n ++ EQ :: QUOT :: wdata v ++ QUOT :: rest.
 Proof. unfold wattr. simpl. rewrite <- !app_assoc. simpl. rewrite <- app_assoc. reflexivity. Qed.
 
-Lemma attrs_rt : forall attrs rest fuel,
+Lemma attrs_rt_gen : forall attrs rest rest' fuel,
   Forall (fun a => okname (fst a)) attrs ->
-  (match rest with c :: _ => c <> SP | [] => True end) ->
+  (forall f, length rest < f -> p_attrs namestart namech f rest = Some ([], rest')) ->
   length (wattrs attrs ++ rest) < fuel ->
-  p_attrs namestart namech fuel (wattrs attrs ++ rest) = Some (attrs, rest).
+  p_attrs namestart namech fuel (wattrs attrs ++ rest) = Some (attrs, rest').
 Proof.
-  induction attrs as [|[n v] attrs IH]; intros rest fuel Hok Hrest Hf.
-  - simpl in *. destruct fuel; [lia|]. simpl. destruct rest as [|c r]; [reflexivity|].
-    destruct (ceq_spec c SP); [contradiction|reflexivity].
+  induction attrs as [|[n v] attrs IH]; intros rest rest' fuel Hok Hrest Hf.
+  - simpl in *. apply Hrest. exact Hf.
   - inversion Hok as [|? ? [Hne Hnm] Hok']; subst. simpl in Hne, Hnm.
     unfold wattrs in *. change (flat_map wattr ((n, v) :: attrs)) with (wattr (n, v) ++ flat_map wattr attrs) in *.
     rewrite <- app_assoc in *. rewrite wattr_eq in *.
     destruct fuel as [|f]; [simpl in Hf; lia|].
     cbn [p_attrs]. replace (ceq SP SP) with true by reflexivity.
     rewrite (span_app namech n) by (assumption || exact nc_eq).
+    destruct n as [|n0 n']; [discriminate|].
     rewrite Hne.
     replace (true && ceq EQ EQ && ceq QUOT QUOT) with true by reflexivity.
     rewrite (span_app (notc QUOT) (wdata v)) by (apply wdata_no_quot || reflexivity).
     rewrite (unesc_esc esc_char_attr v good_attr : unesc (wdata v) = Some v). cbn [obind].
-    rewrite IH; [reflexivity|assumption|assumption|].
+    rewrite (IH rest rest'); [reflexivity|assumption|assumption|].
     simpl in Hf. rewrite !app_length in Hf. simpl in Hf. rewrite !app_length in Hf. simpl in Hf. lia.
+Qed.
+
+Lemma attrs_rt : forall attrs rest fuel,
+  Forall (fun a => okname (fst a)) attrs ->
+  (match rest with c :: _ => c <> SP | [] => True end) ->
+  length (wattrs attrs ++ rest) < fuel ->
+  p_attrs namestart namech fuel (wattrs attrs ++ rest) = Some (attrs, rest).
+Proof.
+  intros attrs rest fuel Hok Hrest Hf. apply attrs_rt_gen; try assumption.
+  intros f Hl. destruct f; [lia|]. simpl. destruct rest as [|c r]; [reflexivity|].
+  destruct (ceq_spec c SP); [contradiction|reflexivity].
+Qed.
+
+(* a start tag closed by " />" (the form insert_output_values writes for output elements) *)
+Lemma elem_empty_sp tag attrs rest fuel :
+  okname tag -> Forall (fun a => okname (fst a)) attrs ->
+  2 * length (([LT] ++ tag ++ wattrs attrs ++ [SP; SLASH; GT]) ++ rest) <= fuel ->
+  p_elem namestart namech fuel (([LT] ++ tag ++ wattrs attrs ++ [SP; SLASH; GT]) ++ rest) = Some (El tag attrs [], rest).
+Proof.
+  intros [Hn1 Hn2] Hattrs Hf.
+  destruct fuel as [|f]; [simpl in Hf; lia|].
+  repeat (rewrite <- ?app_assoc; cbn [app]).
+  cbn [p_elem]. replace (ceq LT LT) with true by reflexivity.
+  assert (Hsp : span namech (tag ++ wattrs attrs ++ SP :: SLASH :: GT :: rest)
+                = (tag, wattrs attrs ++ SP :: SLASH :: GT :: rest)).
+  { apply span_app; [exact Hn2|].
+    destruct attrs as [|[an av] attrs]; simpl; exact nc_sp. }
+  rewrite Hsp, Hn1.
+  rewrite (attrs_rt_gen attrs (SP :: SLASH :: GT :: rest) (SLASH :: GT :: rest)); [|exact Hattrs| |].
+  - cbn [obind fst snd]. replace (ceq SLASH SLASH) with true by reflexivity. replace (ceq GT GT) with true by reflexivity.
+    reflexivity.
+  - intros f0 Hl. destruct f0 as [|[|f1]]; [simpl in Hl; lia|simpl in Hl; lia|].
+    cbn [p_attrs]. replace (ceq SP SP) with true by reflexivity.
+    assert (Hs0 : span namech (SLASH :: GT :: rest) = ([], SLASH :: GT :: rest)) by (simpl; rewrite nc_slash; reflexivity).
+    rewrite Hs0. replace (ceq SLASH SP) with false by reflexivity. reflexivity.
+  - repeat (rewrite <- ?app_assoc in Hf; cbn [app] in Hf). simpl in Hf. rewrite ?app_length in *. simpl in *. rewrite ?app_length in *. simpl in *. lia.
 Qed.
 
 Inductive wr : item -> str -> Prop :=
